@@ -125,7 +125,7 @@ const PROFILES: &[Profile] = &[
     prof("par", "par", "par"),
     prof("serde", "serde", "serde"),
     prof("table", "table", "table"),
-    Profile { steps: Some(320), ..prof("table-churn", "table", "table-churn") },
+    Profile { steps: Some(520), ..prof("table-churn", "table", "table-churn") },
     prof("set", "set", "set"),
     prof("set-pairs", "set", "set-pairs"),
     Profile { sweep: Some("panic"), sweep_ops: 6, sweep_k: 16, steps: Some(70), ..prof("panic-set", "set", "set") },
@@ -229,11 +229,21 @@ fn make_base(prof: &Profile, seed: u64, i: usize, real: Option<&mut dyn Write>) 
     let scripted = prof.name == "entry-sat" && rng.chance(1, 4);
     let kind = if scripted { "sequential" } else { kind };
     let kind = if prof.name == "churn-window" && rng.chance(2, 3) { "sequential" } else { kind };
+    // table-churn: long probe chains (three and more groups) inside tables of 64-256 buckets, so that the
+    // in-place rehash of a HashTable has to judge elements whose ideal group is several probe steps away
+    let (kind, universe) = if prof.gen == "table-churn" && rng.chance(1, 2) {
+        (*rng.pick(&["cluster", "samepos", "groupstride", "postag", "sequential"]), 512)
+    } else {
+        (kind, universe)
+    };
     let (kind, universe) = if prof.name == "retain-chain" {
         (*rng.pick(&["samepos", "samepos", "cluster", "groupstride", "const0", "sametag", "sequential"]), *rng.pick(&[64u64, 128, 200]))
     } else {
         (kind, universe)
     };
+    // scripted long-chain in-place rehash (see gen::chain_rehash_script)
+    let chain = (prof.name == "table-churn" || prof.name == "saturate") && lay != "zst" && rng.chance(1, 10);
+    let (kind, universe) = if chain { ("const0", 256) } else { (kind, universe) };
     let steps = match prof.gen {
         "saturate" => prof.steps.unwrap_or(150 + rng.below(250) as usize),
         _ => prof.steps.unwrap_or(20 + rng.below(200) as usize),
@@ -270,6 +280,11 @@ fn make_base(prof: &Profile, seed: u64, i: usize, real: Option<&mut dyn Write>) 
     g.variant = prof.name;
     if scripted {
         g.script = gen::stale_slot_script(&mut rng);
+    }
+    let mut steps = steps;
+    if chain {
+        g.script = gen::chain_rehash_script(prof.coll == "table");
+        steps = steps.max(g.script.len() + 12);
     }
     let mut ops = Vec::new();
     let mut counters = Vec::new();
